@@ -1135,7 +1135,7 @@ def sqlite_class(e):
     m = str(e)
     for k in ('already exists', 'no such table', 'no such column', 'syntax error',
               'is locked', 'already in use', 'logica.py exited', 'printed nothing',
-              'user-defined', 'malformed JSON'):
+              'user-defined', 'malformed JSON', 'unknown database'):
         if k in m:
             return k.replace(' ', '_')
     return common.msg_class(m)
